@@ -1061,15 +1061,28 @@ class Interp(Engine):
             for node in cd.body:
                 if isinstance(node, ast.FunctionDef) and node.name == meth:
                     fv = FuncV(rr, cd.name + "." + meth, node, selfv)
-                    args = [self.eval(a) for a in n.args]
+                    args = self._pos_args(n.args)
                     kwargs = {kw.arg: self.eval(kw.value) for kw in n.keywords if kw.arg}
                     return self.call_func(fv, args, kwargs)
         h = self.reg.super_hook(fr.cls, meth)
         if h:
-            args = [self.eval(a) for a in n.args]
+            args = self._pos_args(n.args)
             kwargs = {kw.arg: self.eval(kw.value) for kw in n.keywords if kw.arg}
             return h(self, selfv, args, kwargs)
         raise Unsupported("super().%s from %s" % (meth, fr.cls))
+
+    def _pos_args(self, nodes):
+        """positional arguments of a super().m(...) call; `*tup` of a tuple value is spliced in (as e_Call does)"""
+        args = []
+        for a in nodes:
+            if isinstance(a, ast.Starred):
+                sv = self.eval(a.value)
+                if not isinstance(sv, tuple):
+                    raise Unsupported("*args of non-tuple")
+                args.extend(sv)
+            else:
+                args.append(self.eval(a))
+        return args
 
     def construct(self, cv, args, kwargs):
         # exception classes of the repo
